@@ -423,9 +423,10 @@ func checkFaultWire(s *vsched.Sched, w *World, p Param) {
 // healthy clauses: exactly one execution each, notification without id and without response).
 func init() {
 	Register(&Scenario{
-		Name:     "kinds",
-		Property: "C04",
-		Cfg:      vsched.Config{Horizon: 5 * time.Second},
+		Name:        "kinds",
+		LazyDescToo: true,
+		Property:    "C04",
+		Cfg:         vsched.Config{Horizon: 5 * time.Second},
 		Params: func(tier string) []Param {
 			b := 1
 			if tier == "thorough" {
